@@ -1,6 +1,6 @@
 SPECIFICATION Spec
 CONSTANTS
-  NStmts = 12000
+  NStmts = 30000
   MaxCmds = 8
   MaxTones = 24
   BadOdds = 25
